@@ -651,4 +651,4 @@ LEVEL_TEXT = ('Machine-checked proof (Coq) about an executable model of the thre
 LEVEL_NOTE = 'Trusted: Coq kernel, extraction+driver (vm_compute cross-check), harness, translator; lookup through the C14 model.'
 TECHNIQUE = 'Coq proof about an executable model + differential correspondence with the implementation'
 DESIGN_REF = 'DESIGN.md section 5, C13'
-READY = False
+READY = True
